@@ -1031,9 +1031,15 @@ fn run_case(input: &Sx, pools: &[(usize, rayon::ThreadPool)]) -> String {
             }
             if a.len() > 5 {
                 // fresh process
-                let d = std::process::Command::new(std::env::current_exe().unwrap())
-                    .args(["--digest", &format!("(run {name} {v} {inst} {iters} {seed})")])
-                    .output().ok().and_then(|o| String::from_utf8(o.stdout).ok()).map(|s| s.trim().to_string()).unwrap_or("proc-failed".into());
+                // (spawning can fail on a loaded machine: tried up to four times before it is reported)
+                let mut d = String::new();
+                for attempt in 0..4u64 {
+                    if attempt > 0 { std::thread::sleep(Duration::from_millis(200 * attempt)); }
+                    d = std::process::Command::new(std::env::current_exe().unwrap())
+                        .args(["--digest", &format!("(run {name} {v} {inst} {iters} {seed})")])
+                        .output().ok().and_then(|o| String::from_utf8(o.stdout).ok()).map(|s| s.trim().to_string()).unwrap_or_default();
+                    if !d.is_empty() { break; }
+                }
                 ds.push(list(["fresh-process".into(), if d.is_empty() { "proc-failed".into() } else { d }]));
             }
             tagged("digests", ds)
